@@ -38,7 +38,7 @@ TRUSTED_BASE = [
 ASSUMPTIONS = [
     "Phi (scipy erfc) and images_kernels.gaussian are section variables of the theorems; the runs instantiate "
     "Phi with 1/2 + 1/sqrt(2 pi) * RInt exp(-t^2/2) 0 x",
-    "the mesh arrays _bpnts/_ppnts are an input (their construction is C12's model)",
+    "the pixel grid handed to the model and to the predicate is lo + i * pixel_size read from the public attributes at the moment of each transform (its construction is C12's model)",
     "numpy semantics of broadcasting, slicing and += are as modelled",
     "binary64 rounding of the implementation is bounded by the 1e-9 tolerance, not proved",
     "per-pixel agreement with the true Gaussian mass is certified on the sampled cases only (a test, not a theorem)",
